@@ -306,6 +306,74 @@ def directed(rng, tier):
     return items
 
 
+def residue_items(rng):
+    """Function bodies that END in dead code with operands still on the stack (more than the function has results: after return, br,
+    br_table, unreachable the stack is polymorphic), next to functions whose result reaches the end of the body normally.  The translator
+    writes functions in an order of its own (and several per file): whatever one body leaves behind must not reach the next."""
+    c32, c64 = (lambda x: ["i32.const", b32(x)]), (lambda x: ["i64.const", b64(x)])
+    items = []
+    for salt in range(3):
+        funcs, exps, script = [], [], [INST]
+        types = [{"p": ["i32"], "r": []}, {"p": ["i32"], "r": ["i32"]}, {"p": ["i32"], "r": ["i64"]}, {"p": ["i32"], "r": ["f64"]}]
+        # (operands pushed BEFORE the instruction that ends reachability: they are simply abandoned)
+        leftovers = [[["local.get", 0], ["return"]],
+                     [c32(1 + salt), c64(2), ["local.get", 0], ["br", 0]],
+                     [c64(5), c32(6 + salt), ["f64.const", [0] * 8], ["unreachable"]],
+                     [c32(3), c32(4 + salt), ["local.get", 0], ["br_table", [0, 0], 0]],
+                     [c32(salt), ["local.get", 0], ["i32.add"], c64(1), c64(2), ["return"]],
+                     [["local.get", 0], ["local.get", 0], ["block", ""], ["br", 1], ["end"], ["local.get", 0], ["return"]]]
+        falling = [(1, [["local.get", 0], c32(9 + salt), ["i32.add"]]),
+                   (2, [["local.get", 0], ["i64.extend_i32_u"], c64(1000 + salt), ["i64.add"]]),
+                   (3, [["local.get", 0], ["f64.convert_i32_u"]]),
+                   (1, [c32(7), ["local.get", 0], ["if", "i32"], c32(11 + salt), ["else"], c32(12), ["end"], ["i32.add"]]),
+                   (1, [["block", "i32"], ["local.get", 0], c32(salt), ["i32.add"], ["end"]]),
+                   (2, [c64(77), ["local.get", 0], ["i64.extend_i32_s"], ["i64.sub"]])]
+        order = [("L", k) for k in range(len(leftovers))] + [("F", k) for k in range(len(falling))]
+        rng.shuffle(order)
+        for kind, k in order * 2:          # twice: every body appears with two different neighbours (bodies differ by a nop)
+            pad = [["nop"]] * (len(funcs) // len(order))
+            if kind == "L":
+                funcs.append({"type": 0, "locals": [], "body": pad + leftovers[k] + [["end"]]})
+            else:
+                funcs.append({"type": falling[k][0], "locals": [], "body": pad + falling[k][1] + [["end"]]})
+            exps.append({"name": "r%d" % len(funcs), "kind": "func", "idx": len(funcs) - 1})
+            for x_ in (0, 5):
+                script.append({"op": "call", "inst": 1, "export": "r%d" % len(funcs), "args": [arg("i32", x_)]})
+        items.append({"id": "residue%d" % salt, "module": {"types": types, "funcs": funcs, "exports": exps}, "script": script})
+    return items
+
+
+def manylocals_items():
+    """Functions with parameters and several hundred locals in groups of different types: every local near a group boundary and around
+    index 256 is written and read with its own type (a local's type is that of ITS group, parameters counted in)."""
+    groups = [("i32", 150), ("i64", 100), ("f32", 3), ("f64", 30), ("i32", 20), ("i64", 1), ("f64", 2)]
+    items = []
+    for pi, params in enumerate((["i32", "i64"], ["i64"], ["i32", "i64", "f64", "i32"])):
+        tys = list(params)
+        for t, n in groups:
+            tys += [t] * n
+        bounds, at = set(), len(params)
+        for t, n in groups:
+            bounds |= {at - 1, at, at + 1, at + n - 2, at + n - 1}
+            at += n
+        idxs = sorted(i for i in bounds | {254, 255, 256, 257, 258, len(tys) - 1, len(tys) - len(params), len(tys) - len(params) - 1} if len(params) <= i < len(tys))
+        p64 = params.index("i64")
+        to = {"i32": [["i32.wrap_i64"]], "i64": [], "f32": [["f32.convert_i64_s"]], "f64": [["f64.convert_i64_s"]]}
+        back = {"i32": [["i64.extend_i32_u"]], "i64": [], "f32": [["i64.trunc_sat_f32_s"]], "f64": [["i64.trunc_sat_f64_s"]]}
+        funcs, exps, script = [], [], [INST]
+        for i in idxs:
+            t = tys[i]
+            # local i := p64 (as t); a neighbour of another index is written too; result: local i back as i64, plus the untouched local i-1 (0)
+            body = [["local.get", p64]] + to[t] + [["local.set", i]] + [["local.get", i]] + back[t] + \
+                   ([["local.get", i - 1]] + back[tys[i - 1]] + [["i64.add"]] if i - 1 >= len(params) else []) + [["end"]]
+            funcs.append({"type": 0, "locals": [[t_, n_] for t_, n_ in groups], "body": body})
+            exps.append({"name": "l%d" % i, "kind": "func", "idx": len(funcs) - 1})
+            args = [arg(t_, 0x900000005 if t_ == "i64" else 3) if t_ in ("i32", "i64") else {"t": "f64", "b": [0] * 8} for t_ in params]
+            script.append({"op": "call", "inst": 1, "export": "l%d" % i, "args": args})
+        items.append({"id": "manylocals%d" % pi, "module": {"types": [{"p": params, "r": ["i64"]}], "funcs": funcs, "exports": exps}, "script": script})
+    return items
+
+
 def dead_everything(rng):
     """Every instruction of the feature set, with immediates whose bytes look like structure (end, else, block, loop, if), once in
     code made unreachable by br / return / unreachable / br_table; the code after the enclosing block must run as if it were not there."""
@@ -393,7 +461,7 @@ def main():
         m2 = dict(it["module"], funcs=[dict(f, body=strip_dead(f["body"])) for f in it["module"]["funcs"]])
         if any(len(f2["body"]) != len(f["body"]) for f, f2 in zip(it["module"]["funcs"], m2["funcs"])):
             stripped.append({"id": it["id"] + "_s", "module": m2, "script": it["script"]})
-    items = gen + stripped + directed(rng, tier) + dead_everything(rng)
+    items = gen + stripped + directed(rng, tier) + dead_everything(rng) + residue_items(rng) + manylocals_items()
     # gcc-O0-pattern: automatic variables the generated code does not initialise hold 0xFE.. instead of whatever was there
     # the validator that gates every replayed scenario accepts / rejects its control modules for the stated reasons
     wv = tlc_ok(tlc("WasmValidCheck", timeout=300), "WasmValidCheck")
